@@ -41,8 +41,29 @@ class Injector:
             self.pending_late = None
             self._raise(ev)
 
+    def _tmp_file_of(self, ev):
+        for p in ev.paths:
+            rel = os.path.relpath(p, self.root).split(os.sep)
+            if len(rel) == 3 and rel[1] == "tmp" and rel[0] in ("objects", "metadata", "refs") and os.path.isfile(p):
+                return p
+        return None
+
     def __call__(self, ev):
         if not is_site(ev):
+            return
+        if self.sticky == "vanish":
+            # "a tmp reaper": right before the k-th operation on a file in one of the store's tmp directories that file is
+            # REALLY removed by somebody else; nothing is injected - the operation then fails (or not) on its own
+            if self.fired is not None:
+                return
+            p = self._tmp_file_of(ev)
+            if p is None:
+                return
+            if self.n == self.k:
+                self.fired = ev
+                self.bad_path = p
+                fsi.real("remove")(p)
+            self.n += 1
             return
         if self.sticky == "late":
             if ev.kind not in LATE_KINDS or self.fired is not None:
@@ -79,6 +100,9 @@ class Injector:
 
     def describe(self):
         ev = self.fired
+        if self.sticky == "vanish":
+            return (f"the temporary file {os.path.relpath(self.bad_path, self.root) if self.bad_path else '-'} removed by a third party "
+                    f"right before site #{self.k} [{ev.brief(self.root) if ev else '-'}]")
         how = "reported AFTER the operation took effect (lost reply)" if self.sticky == "late" else \
             "from then on at every operation that needs space (disk full)" if self.sticky == "full" else \
             "persisting for the destination" if self.sticky else "once"
